@@ -83,13 +83,11 @@ theorem stepTotal_src (C : Nat) (preds : List SEPred) (anns : List SEAnn) (pIdx 
     (stepTotal C preds anns pIdx aIdx m).filterMap (·.src) = (m.src.map (fun k => pIdx.getD k 0)).toList := by
   unfold stepTotal stepEntries
   cases m.src <;> cases m.tgt <;> simp [unmatchedPred, unmatchedAnn, matchedPair]
-  split <;> simp
 
 theorem stepTotal_tgt (C : Nat) (preds : List SEPred) (anns : List SEAnn) (pIdx aIdx : List Nat) (m : MEntry) :
     (stepTotal C preds anns pIdx aIdx m).filterMap (·.tgt) = (m.tgt.map (fun k => aIdx.getD k 0)).toList := by
   unfold stepTotal stepEntries
   cases m.src <;> cases m.tgt <;> simp [unmatchedPred, unmatchedAnn, matchedPair]
-  split <;> simp
 
 theorem filterMap_flatten_map {α β γ} (f : β → Option γ) (g : α → List β) (l : List α) :
     ((l.map g).flatten).filterMap f = (l.map (fun a => (g a).filterMap f)).flatten := by
@@ -213,10 +211,10 @@ theorem mem_clipEntries {C : Nat} {preds : List SEPred} {anns : List SEAnn} {ms 
     · exact Or.inl (Or.inr ⟨i, hi, rfl⟩)
     · exact Or.inr ⟨j, hj, rfl⟩
 
-/-- a paired entry of the loop body comes from a two-sided matcher entry with positive affinity -/
+/-- a paired entry of the loop body comes from a two-sided matcher entry -/
 theorem stepTotal_paired {C : Nat} {preds : List SEPred} {anns : List SEAnn} {pIdx aIdx : List Nat} {m : MEntry}
     {e : Entry} (he : e ∈ stepTotal C preds anns pIdx aIdx m) (hp : e.paired = true) :
-    ∃ k l, m.src = some k ∧ m.tgt = some l ∧ 0 < m.aff ∧
+    ∃ k l, m.src = some k ∧ m.tgt = some l ∧
       e = matchedPair C preds anns (pIdx.getD k 0) (aIdx.getD l 0) m.aff := by
   unfold stepTotal stepEntries at he
   cases hs : m.src with
@@ -232,20 +230,14 @@ theorem stepTotal_paired {C : Nat} {preds : List SEPred} {anns : List SEAnn} {pI
       simp only [hs, ht, Option.map_none, Option.map_some, List.mem_singleton] at he
       subst he; simp [Entry.paired, unmatchedPred] at hp
     | some l =>
-      simp only [hs, ht, Option.map_some] at he
-      by_cases ha : 0 < m.aff
-      · simp only [ha, if_true, List.mem_singleton] at he
-        exact ⟨k, l, rfl, rfl, ha, he⟩
-      · simp only [ha, if_false, List.mem_cons, List.mem_nil_iff, or_false] at he
-        rcases he with rfl | rfl
-        · simp [Entry.paired, unmatchedPred] at hp
-        · simp [Entry.paired, unmatchedAnn] at hp
+      simp only [hs, ht, Option.map_some, List.mem_singleton] at he
+      exact ⟨k, l, rfl, rfl, he⟩
 
-/-- an unpaired entry of the loop body has score 0 and carries the matcher's affinity, which
-    is 0 there under the contract -/
+/-- an unpaired entry of the loop body comes from a one-sided matcher entry: score 0 and the
+    matcher's affinity, which is 0 there under the contract -/
 theorem stepTotal_unpaired {C : Nat} {preds : List SEPred} {anns : List SEAnn} {pIdx aIdx : List Nat} {m : MEntry}
     {e : Entry} (he : e ∈ stepTotal C preds anns pIdx aIdx m) (hp : e.paired = false)
-    (h0 : 0 ≤ m.aff) (h1 : (m.src.isNone ∨ m.tgt.isNone) → m.aff = 0) : e.aff = 0 ∧ e.score = 0 := by
+    (h1 : (m.src.isNone ∨ m.tgt.isNone) → m.aff = 0) : e.aff = 0 ∧ e.score = 0 := by
   unfold stepTotal stepEntries at he
   cases hs : m.src with
   | none =>
@@ -260,14 +252,7 @@ theorem stepTotal_unpaired {C : Nat} {preds : List SEPred} {anns : List SEAnn} {
       simp only [hs, ht, Option.map_none, Option.map_some, List.mem_singleton] at he
       subst he; exact ⟨h1 (Or.inr (by simp [ht])), rfl⟩
     | some l =>
-      simp only [hs, ht, Option.map_some] at he
-      by_cases ha : 0 < m.aff
-      · simp only [ha, if_true, List.mem_singleton] at he
-        subst he; simp [Entry.paired, matchedPair] at hp
-      · have hz : m.aff = 0 := le_antisymm (not_lt.mp ha) h0
-        simp only [ha, if_false, List.mem_cons, List.mem_nil_iff, or_false] at he
-        rcases he with rfl | rfl
-        · exact ⟨hz, rfl⟩
-        · exact ⟨hz, rfl⟩
+      simp only [hs, ht, Option.map_some, List.mem_singleton] at he
+      subst he; simp [Entry.paired, matchedPair] at hp
 
 end SE.Detection
